@@ -10,6 +10,9 @@ ChainSet ==
   CASE ChainSetName = "single" -> Chains1
     [] ChainSetName = "pairs"  -> Chains2T
     [] ChainSetName = "pairs-sample" -> RandomSubset(SampleN, Chains2T)
+    [] ChainSetName = "bridges" -> {<<s>> : s \in Sinks \cup Plain("Materialize", {0})}
+                                   \cup {<<a, b>> : a \in Plain("Materialize", {0}), b \in NotifConsumers}
+                                   \cup {<<a, b, c>> : a \in {x \in Rep : x.op \in {"Map", "Filter", "Take", "Skip", "StartWith", "OnErrorReturn"}}, b \in Plain("Materialize", {0}), c \in NotifConsumers}
     [] OTHER -> Chains1
 
 FaultSet ==
